@@ -43,6 +43,9 @@ def run(ctx):
     # compiled with gnark's real builders, the state given as compile-time constants
     for i in range(3 if thorough else 1):
         jobs.append({"part": "glconst", "mode": "plain", "shard": 60 + i})
+    # ... and on witness inputs (an operand overwritten by a builder's in-place multiply-accumulate exists only there)
+    for i in range(3 if thorough else 1):
+        jobs.append({"part": "glreal", "mode": "plain", "shard": 70 + i})
 
     def one(j):
         rq = dict(files)
